@@ -301,6 +301,10 @@ def record_baseline(prop, results):
     os.makedirs(os.path.join(VERIF, "baseline"), exist_ok=True)
     with open(os.path.join(VERIF, "baseline", prop + ".json"), "w") as fh:
         json.dump({"property": prop, "proved": sorted(proved), "functions": funcs}, fh, indent=0)
+    # the names of the locals the sidecar specs refer to are those of this tree (see Engine.local_alias)
+    import subprocess
+    import sys
+    subprocess.run([sys.executable, os.path.join(VERIF, "tools", "record_locals.py")], check=False, stdout=subprocess.DEVNULL)
 
 
 def contract_text(reg, qual):
